@@ -376,6 +376,7 @@ pub fn classify(ev: &Ev, cx: &mut Cx) -> node::Shape {
     cx.class_if(ev.props.iter().any(|p| matches!(p.val, PV::Node { cap: Cap::Sval, .. })), "capture-sval");
     cx.class_if(ev.props.iter().any(|p| matches!(p.val, PV::Node { cap: Cap::Display | Cap::Debug, .. })), "capture-text");
     cx.class_if(matches!(ev.extent, Ext::Range(..)), "extent-range");
+    cx.class_if(matches!(&ev.extent, Ext::Range(a, b) if a.nanos() == b.nanos()), "extent-empty-range");
     cx.class_if(matches!(ev.extent, Ext::None), "extent-none");
     // physical layout of the property list
     let plan = ev.plan();
